@@ -42,6 +42,9 @@ def main(tier, replay=None):
                                        arena=arena_slots(rng, 100), kinds=["Node", "Node", "Node", "Ref", "Array", "Box"],
                                        p_collect=0.15) for _ in range(n)], "arena")
     camp.run([], [gcgen.random_program(rng, nobj=60, nops=300) for _ in range(n // 2)], "random/mixed")
+    # thousands of objects, a fraction kept through a rooted Array of Ref: the registry passes through many of its sizes
+    camp.run([], [["reset", "bulk %d %d" % (m, k)] for (m, k) in (((700, 3), (3000, 7), (12000, 2)) if quick else ((300, 1), (700, 3), (3000, 7), (12000, 2), (40000, 5), (60000, 11)))],
+             "bulk", sample=False)
     chk.cov["rule"] = ("an execution = one mutator program; after every operation the registry dump (ids, root flags, item count, "
                        "marks, duplicates, unknown entries) and mem(gc,p) of every live object must equal the specification's set of "
                        "live managed objects; distinct = program; arena programs place objects at addresses colliding modulo 5, 11, 23, 53")
